@@ -146,15 +146,18 @@ func (b *sendDataWriter) Write(p []byte) (int, error) {
 			return 0, err
 		}
 
-		if b.transfer.bufInitPhase.Load() {
-			b.transfer.bufInitWG.Add(1)
-		}
+		bufInitPhase := b.transfer.bufInitPhase.Load()
 		if !b.deliver(b.buffer.Bytes()) {
 			return 0, b.ctx.Err()
 		}
 
-		if b.transfer.bufInitPhase.Load() {
-			b.transfer.bufInitWG.Wait()
+		if bufInitPhase && b.transfer.bufInitPhase.Load() {
+			// wait for the ack of this chunk, but not for ever: the ack may never come
+			select {
+			case <-b.transfer.bufInitAckChan:
+			case <-b.ctx.Done():
+				return 0, b.ctx.Err()
+			}
 		}
 		b.bufSize = b.transfer.bufferSize.Load()
 		b.buffer = bytes.NewBuffer(make([]byte, 0, b.bufSize))
@@ -743,12 +746,12 @@ func (t *trzszTransfer) pipelineRecvAck(ctx *pipelineContext, size int64, ackCha
 				if length == bufSize && chunkTime < 500*time.Millisecond && bufSize < t.transferConfig.MaxBufSize {
 					t.bufferSize.Store(minInt64(bufSize*2, t.transferConfig.MaxBufSize))
 					if t.bufInitPhase.Load() {
-						t.bufInitWG.Done()
+						t.notifyBufInitAck()
 					}
 				} else {
 					if t.bufInitPhase.Load() {
 						t.bufInitPhase.Store(false)
-						t.bufInitWG.Done()
+						t.notifyBufInitAck()
 					}
 					if chunkTime >= 2*time.Second && length <= bufSize {
 						bufSize = bufSize / int64(chunkTime/time.Second)
